@@ -595,6 +595,23 @@ def _flags3():
 
 _flags3()
 
+
+# flags4: hier4 (four machine levels) with flags only in the innermost machine and one at the outermost level, so that a
+# flag query from the root has to cross two submachines that carry no flag state of their own
+def _flags4():
+    import copy
+    z = copy.deepcopy(ZOO['hier4'])
+    z.name = 'flags4'
+    z.flags = ['F1', 'F2', 'F3']
+    z.menu = []
+    for m in z.machines():
+        for st in m.states:
+            st.flags = {'L2': ['F1', 'F3'], 'L1': ['F2'], 'O2': ['F2']}.get(st.name, [])
+    reg(z)
+
+
+_flags4()
+
 # ------------------------------------------------------------------------------------------------
 # sw_<policy>: hier2 (common subset) under each active-state-switch policy, at every level
 def _switch_variants():
